@@ -84,6 +84,10 @@ def adversarial_sender(rng, tier, rate_limit=True, gens=False, stops=False):
                                                             50000001, 200000001])})
             elif stops and r < 0.95:
                 ops.append({'op': rng.choice(['stop_sending', 'stop_sending', 'reset']), 'i': 0})
+            elif r < 0.975:
+                # set_address() with the address the layer already has, at any moment (also while a frame is parked by the rate limiter or a
+                # transfer is under way): documented to be callable at any time, and with an unchanged address nothing at all may change
+                ops.append({'op': 'set_address', 'i': 0, 'addr': a})
             else:
                 ops.append(fc(0, 0, 0))
                 ops.append(fc(0, 1, 0))
